@@ -28,7 +28,7 @@ RULE = ("generated type definitions (1-4 declared fields, serializers from a poo
         "exactly one eliot:traceback then one eliot:serialization_failure (rendering mentions the message) are logged in the context "
         "current at the call at fresh later positions, no serializer called twice, the call returns normally. non-trivial = "
         "non-idempotent serializer or >=1 failing one; distinct by (message kind, serializer kinds, declaration kinds, failing set, missing field). "
-        "Fields are declared by Field(key, serializer), Field.for_types, the fields() factory or Field.for_value. Extra parts: a serializer that "
+        "Fields are declared by Field(key, serializer), a Field subclass overriding serialize(), Field.for_types, the fields() factory or Field.for_value. Extra parts: a serializer that "
         "logs a message of its own type (re-entrancy), and 2-3 threads logging one type under the line-granular scheduler (LINE events on "
         "eliot/_validation.py and eliot/_output.py, all one-preemption schedules + sampled): every delivered message holds its own values. In 30% of the cases "
         "the failing serializers raise one stored exception object again and again")
